@@ -110,3 +110,39 @@ Proof.
     destruct C as [(c & X & _)|C]; [discriminate X | exact C].
 Qed.
 Print Assumptions C03_min_max.
+
+(* REMAINDER. `a % b` is the truncated remainder with the sign of the dividend: brought to the common scale
+   s = max(scale a, scale b), the magnitude of the result is |a| mod |b|, its scale is at most s, and a non-zero result has
+   the sign of a (so a = q*b + r with q an integer and |r| < |b|). Where the model abstains (a dividend that must be rescaled
+   past 96 bits: known finding D21, a defect of rust_decimal) dec_rem is DAbstain and nothing is claimed. *)
+Local Open Scope N_scope.
+Theorem C03_remainder_is_truncated : forall a b r, is_zero b = false -> dec_rem a b = DOk r ->
+  let s := N.max (dscale a) (dscale b) in
+  dmant r * pow10 (s - dscale r) = (dmant a * pow10 (s - dscale a)) mod (dmant b * pow10 (s - dscale b)) /\
+  dscale r <= s /\ (dmant r = 0 \/ dneg r = dneg a).
+Proof.
+  intros a b r Hb H s. unfold dec_rem in H. rewrite Hb in H. fold s in H.
+  set (A := dmant a * pow10 (s - dscale a)) in *. set (B := dmant b * pow10 (s - dscale b)) in *.
+  assert (HB : B <> 0).
+  { unfold B, pow10. unfold is_zero in Hb. apply N.eqb_neq in Hb. apply N.neq_mul_0. split; [exact Hb | apply N.pow_nonzero; discriminate]. }
+  destruct (is_zero a) eqn:Ha.
+  - inversion H; subst r. cbn [dmant dscale dneg dec_zero]. unfold is_zero in Ha. apply N.eqb_eq in Ha.
+    unfold A. rewrite Ha. cbn [N.mul]. rewrite N.mod_0_l by exact HB. repeat split; [lia | left; reflexivity].
+  - destruct (A =? B) eqn:E1.
+    + inversion H; subst r. cbn [dmant dscale dneg dec_zero]. apply N.eqb_eq in E1. rewrite E1, N.mod_same by exact HB.
+      repeat split; [lia | left; reflexivity].
+    + destruct (A <? B) eqn:E2.
+      * inversion H; subst r. apply N.ltb_lt in E2. fold A. rewrite N.mod_small by exact E2.
+        repeat split; [unfold s; lia | right; reflexivity].
+      * destruct ((dscale a <? dscale b) && (two96 <=? A)); [discriminate H|]. inversion H; subst r.
+        unfold mk. cbn [dmant dscale dneg]. rewrite N.sub_diag. unfold pow10 at 1. rewrite N.pow_0_r, N.mul_1_r.
+        repeat split; [lia|]. destruct (A mod B =? 0) eqn:E3; [left; apply N.eqb_eq; exact E3 | right; destruct (dneg a); reflexivity].
+Qed.
+Print Assumptions C03_remainder_is_truncated.
+
+Example C03_remainder_example :
+  dec_rem (mkdec true 75 1) (mkdec false 2 0) = DOk (mkdec true 15 1) /\      (* -7.5 % 2 = -1.5 *)
+  dec_rem (mkdec false 7 0) (mkdec true 25 1) = DOk (mkdec false 20 1) /\     (* 7 % -2.5 = 2.0 *)
+  dec_rem (mkdec false 1 0) (mkdec false 0 3) = DDivZero.
+Proof. vm_compute. repeat split. Qed.
+Print Assumptions C03_remainder_example.
